@@ -29,9 +29,9 @@ witness units):
 Rules (identity (rule, function, key); key = <alphabet>:<clause>; every instance aggregates all streams of its family):
   R-STREAM:prefix      garbage prefix of 0..3 (thorough ..4) bytes, each byte in every class (START, STOP, STUB, each escape
                        code, other), then one well-formed frame of payload length 0..2 (..3), for START == STOP and the legacy
-                       receiver two frames
-  R-STREAM:truncated   a well-formed frame cut after every byte but the last, then good frame(s)
-  R-STREAM:corrupted   one byte of a well-formed frame replaced by a byte of every class, then good frame(s)
+                       receiver two frames; capacities: exact fit of the good frames (2, 3, 4 (5)) and 8
+  R-STREAM:truncated   a well-formed frame cut after every byte but the last, then good frame(s); capacities 2, 3, 8
+  R-STREAM:corrupted   one byte of a well-formed frame replaced by a byte of every class, then good frame(s); capacities 2, 3, 8
   R-STREAM:overlong    capacities 2..5, a well-formed frame whose content is 1..3 bytes longer than capacity-1, then good
                        frame(s) that fit
                        (the three fault families both on a receiver fresh from init and behind one delivered good frame)
@@ -40,6 +40,10 @@ Rules (identity (rule, function, key); key = <alphabet>:<clause>; every instance
   marker carry a matching CRC on that path, and then delivers exactly those bytes; every status is the one the property names;
   no access outside the receive buffer, never more than capacity-1 bytes stored; the byte that does not fit returns OVERFLOW.
   R-STREAM:analysed    one instance per receiver/alphabet when every scenario was analysed exactly (carries the floor)
+The legacy receiver's known behaviour (state 0 after OVERFLOW / DATA_ERROR takes the next byte as the start of a frame) fails
+exactly one instance per family - '...:nothing-delivered-before-the-frame-...' resp. '...:faulty-frame-not-delivered-...' of the
+alphabet 'legacy' - and nothing else (known_findings.json).  A stream that cannot be followed exactly is never a verdict: the
+':analysed' instance of its alphabet disappears and the family is listed as analysis-broken.
 """
 import itertools
 import multiprocessing
@@ -47,11 +51,11 @@ import os
 import time
 
 from common import *
-from absval import IntVal, PtrVal, State, mk_const, NULL
+from absval import IntVal, PtrVal, State
 from lin import Lin, Cons
 import c04_roundtrip as rt
 from c04_roundtrip import (RtInterp, Alphabet, symbolic_alphabets, read_ctx, Unresolved, val8, s8, show, in_vocabulary,
-                           byte_cell, Book, FIELDS, I8, AXIOM)
+                           byte_cell, Book, AXIOM)
 
 RULE = 'R-STREAM'
 NAMES = ['CONTINUE', 'NEWPACKAGE', 'FORCE_RESTART', 'GARBAGE', 'CRC_ERROR', 'OVERFLOW', 'STUFFING_ERROR']
@@ -770,7 +774,7 @@ class Gen:
         """payload lengths of the good frames: every length that fits the buffer (a tight buffer: exactly the one that fills it)"""
         if self.cap >= ROOMY:
             return list(range(nmax + 1))
-        return [self.cap - 2] if 0 <= self.cap - 2 <= nmax else []
+        return [min(self.cap - 2, nmax)]
 
     def limits(self):
         """(longest garbage prefix, longest payload of a good frame, longest payload of a truncated frame, of a frame with a replaced
@@ -977,7 +981,8 @@ class Walk:
         return r is not None and not r['ok']
 
     def fail(self, clause, P, byte, what, where=None):
-        self.failures += 1
+        if clause not in (C_N, C_F):
+            self.failures += 1      # (after an unsound delivery the walk goes on: the good frames behind it are still decided)
         if self.failed(clause):
             self.bk.inst[(self.rule, self.fn, '%s:%s' % (self.A.label, clause))]['n'] += 1
             return
@@ -1284,10 +1289,18 @@ def _task(t):
         n0 = Node.count[0]
         root = getattr(g, 'family_' + family)()
         w.run(root)
+        must = C_D1 if w.kind == 'differ' else C_D2
+        if not w.oks.get(must) and not w.failed(must):
+            raise Unresolved('no stream of the family reached the end of its good frame (nothing was decided about delivery)')
         info.update(streams=w.streams, steps=w.m.steps, pathsteps=w.pathsteps, configurations=len(w.m.ids), nodes=Node.count[0] - n0,
                     garbage_deliveries=sorted(w.deliveries_in_garbage.items())[:40], logical_streams=count_streams(root))
     except (Unresolved, AnalysisBroken) as e:
         bk.unresolved.append('%s %s family %s capacity %d: %s' % (cname, A.label, family, cap, e))
+    except Exception as e:          # an engine limit (e.g. lin.TooHard) or an unexpected IR form: no verdict for this family
+        import traceback
+        tb = traceback.extract_tb(e.__traceback__)[-1]
+        bk.unresolved.append('%s %s family %s capacity %d: %s: %s (%s:%d)' % (cname, A.label, family, cap, type(e).__name__, e,
+                                                                              os.path.basename(tb.filename), tb.lineno))
     bk.paths = info['pathsteps']
     return t, bk, info
 
@@ -1374,9 +1387,14 @@ def run_ext(rep, repo, tier):
         'complete frame: the path assumes residue == 0 for the uninterpreted CRC) and delivers exactly those bytes; every status is '
         'the one the property names (GARBAGE outside frames, FORCE_RESTART, CRC_ERROR, STUFFING_ERROR, OVERFLOW on the byte that '
         'does not fit); no access outside the receive buffer, never more than capacity-1 bytes stored.  The CRC-8 step is an '
-        'uninterpreted function with the single axiom %s.  Not decided here: streams longer than these bounds (the per-transition '
-        'clauses of R-RECV cover every length; configurations reached are finitely many and the memoised transition system is '
-        'closed under the bytes offered, but the induction is not mechanised).' % (4 if tier == 'thorough' else 3,
+        'uninterpreted function with the single axiom %s.  A garbage prefix delivers a packet of its own only on paths on which it '
+        'is START, k >= 1 unescaped bytes the last of which the path assumes equal to the CRC term of those before (k = 1: the byte '
+        '0xFF), STOP - for START == STOP and the legacy receiver the closing marker may be the opening marker of the first frame; the '
+        'class "prefix byte equals the CRC term" is not excluded, it is the zero side of the receiver\'s own branch on the residue.  '
+        'The three fault families are run on a receiver fresh from init and on one that has just delivered a good frame.  Not decided '
+        'here: streams longer than these bounds (the per-transition clauses of R-RECV cover every length, the induction over the '
+        'stream is not mechanised); symbolic alphabets in which a marker or an escape code equals the CRC seed 0xFF.'
+        % (4 if tier == 'thorough' else 3,
                                                                                    3 if tier == 'thorough' else 2, AXIOM))
     rep.extra['c05_streams']['limits(prefix,good payload,truncated payload,corrupted payload)'] = {
         A.label: limits(tier, A) for c in codecs.values() for A in c.alphabets}
